@@ -105,9 +105,12 @@ def run(ctx):
             for name, doctype, ref, attref in variants:
                 for rep in range(reps):
                     inner = rng.choice(["%s", "a%sb", "%s" + xinclude]) % ref if ref else rng.choice(["v", xinclude])
-                    reply = ('<?xml version="1.0"?>%s<e:Envelope xmlns:e="%s"><e:Body><fResponse xmlns="%s"><r k="%s">%s'
+                    # a third of the documents are larger than 64 KiB (size must not change how they are parsed)
+                    pad = ("<!--" + "p" * 70000 + "-->") if ((reps > 1 and rep == reps - 1) or rng.random() < 0.4) else ""
+                    reply = ('<?xml version="1.0"?>%s<e:Envelope xmlns:e="%s">%s<e:Body><fResponse xmlns="%s"><r k="%s">%s'
                              '</r></fResponse></e:Body></e:Envelope>'
-                             % (doctype.replace(" r ", " e:Envelope "), xmlread.ENV11, wsdlkit.TNS, attref, inner)).encode()
+                             % (doctype.replace(" r ", " e:Envelope "), xmlread.ENV11, pad, wsdlkit.TNS, attref,
+                                inner)).encode()
                     entry_points = []
                     c = wsdlkit.client(base_wsdl.encode())
 
@@ -131,15 +134,16 @@ def run(ctx):
                                                  doctype.replace(" r ", " wsdl:definitions "))
                     if ref:
                         wsdl_doc = wsdl_doc.replace('<wsdl:types>', '<wsdl:documentation>%s</wsdl:documentation><wsdl:types>' % ref)
+                    wsdl_doc = wsdl_doc.replace('<wsdl:types>', pad + '<wsdl:types>', 1)
 
                     def ep_wsdl(wsdl_doc=wsdl_doc):
                         cl = wsdlkit.client(wsdl_doc.encode())
                         return str(cl) + cl.wsdl.root.plain()
 
                     inc = ('<?xml version="1.0"?>%s<xsd:schema xmlns:xsd="http://www.w3.org/2001/XMLSchema" '
-                           'targetNamespace="urn:inc"><xsd:annotation><xsd:documentation>%s</xsd:documentation>'
+                           'targetNamespace="urn:inc">%s<xsd:annotation><xsd:documentation>%s</xsd:documentation>'
                            '</xsd:annotation><xsd:element name="e" type="xsd:string"/></xsd:schema>'
-                           % (doctype.replace(" r ", " xsd:schema "), ref)).encode()
+                           % (doctype.replace(" r ", " xsd:schema "), pad, ref)).encode()
                     w_imp = wsdlkit.wsdl_doc('<xsd:import namespace="urn:inc" schemaLocation="suds://inc.xsd"/>' + schema,
                                              "f", "fResponse")
 
